@@ -195,6 +195,16 @@ func (m *Machine) nondetIntrinsic(name string, args []Val) (Val, bool) {
 	case "VerifRun":
 		m.runThreads(m.cInt(args[0], name), false)
 		return nil, true
+	case "VerifRunAt":
+		// deep but narrow: preemption only at the steps of one class
+		if m.sched != nil {
+			m.sched.onlyAt = m.goString(args[1], name)
+		}
+		m.runThreads(m.cInt(args[0], name), false)
+		if m.sched != nil {
+			m.sched.onlyAt = ""
+		}
+		return nil, true
 	case "VerifRunAllSteps":
 		m.runThreads(m.cInt(args[0], name), true)
 		return nil, true
